@@ -166,6 +166,9 @@ def main(argv=None):
     pass
   m = merge(results)
   wall = time.time() - t0
+  extra_cov = {}
+  if getattr(check, 'coverage_extra', None):
+    extra_cov = check.coverage_extra(tier, m) or {}
 
   known, fixed = load_known(check_id)
   by_key = collections.OrderedDict()
@@ -250,9 +253,7 @@ def main(argv=None):
         'inconclusive_reasons': reasons,
     }
     cov.update(m['notes'])
-    extra = getattr(check, 'coverage_extra', None)
-    if extra:
-      cov.update(extra(tier, m))
+    cov.update(extra_cov)
     ev = {
         'property_id': check_id, 'tier': tier, 'seed': seed, 'level': check.LEVEL,
         'coverage': cov, 'assumptions': list(getattr(check, 'ASSUMPTIONS', [])),
